@@ -957,7 +957,9 @@ func (r *vfC08Run) checkStatsDB(t *rapid.T, qs []*vfC08Q) {
 		if name == "" || q.Ambiguous {
 			continue
 		}
-		if !q.WantCount && !vfCountedSuperstring(counted, name) && strings.Contains(string(b), name) {
+		// a name of a few bytes occurs in a binary file by chance (and inside
+		// other strings); those are judged through the API only
+		if len(name) >= 6 && !q.WantCount && !vfCountedSuperstring(counted, name) && strings.Contains(string(b), name) {
 			t.Fatalf("stats.db holds the ignored name %q\nconfig: %v", name, r.conf.describe())
 		}
 		if r.conf.Anonymize && !vfAnonOK(q.Addr) && q.ClientID == "" && strings.Contains(string(b), q.Addr.Unmap().String()) {
